@@ -989,6 +989,14 @@ func (e *Env) call(x *ast.CallExpr) *Val {
 		h := fx.heapGet(e.st, name, cs)
 		n := fx.u.uf("bytes2str", "(declare-fun bytes2str ((Array Int Int) Int Int) "+fx.u.strSort()+")")
 		return &Val{T: "(" + n + " (select " + h + " (sl_arr " + v.T + ")) (sl_off " + v.T + ") (sl_len " + v.T + "))", Ty: strT}
+	case "smhas", "smval":
+		// smhas(g, k) / smval(g, k): membership and value in the map[string]string a ghost (untyped pointer) denotes
+		g, k := argv(0), argv(1)
+		hn, hs, vn, vs := fx.mapComps(types.Typ[types.String], types.Typ[types.String])
+		if name == "smhas" {
+			return &Val{T: and("(not (= "+g.T+" 0))", "(select (select "+fx.heapGet(e.st, hn, hs)+" "+g.T+") "+k.T+")"), Ty: boolT}
+		}
+		return &Val{T: "(select (select " + fx.heapGet(e.st, vn, vs) + " " + g.T + ") " + k.T + ")", Ty: strT}
 	case "sllen":
 		// sllen(g): length of a slice-sorted ghost value
 		return &Val{T: "(sl_len " + argv(0).T + ")", Ty: intT}
@@ -1261,7 +1269,7 @@ func (e *Env) call(x *ast.CallExpr) *Val {
 		}
 	}
 	// pure library functions: the same uninterpreted symbol the code gets
-	if pureFuncs[name] {
+	if lc := fx.eng.specs.Contracts["lib:"+name]; pureFuncs[name] || (lc != nil && lc.Pure) {
 		if i := strings.Index(name, "."); i > 0 {
 			if p := e.importedPkg(name[:i]); p != nil {
 				if f, ok := p.Scope().Lookup(name[i+1:]).(*types.Func); ok {
@@ -1403,7 +1411,7 @@ func (fx *FuncCtx) unchangedTerm(now, pre *State, except ...string) string {
 	}
 	sort.Strings(names)
 	for _, c := range names {
-		if strings.HasPrefix(c, "G$rd_pos") || strings.HasPrefix(c, "G$it_") || strings.HasPrefix(c, "G$put_") || strings.HasPrefix(c, "G$get_") || strings.HasPrefix(c, "G$part_") || strings.HasPrefix(c, "G$br_src") || strings.HasPrefix(c, "G$hdr_") || strings.HasPrefix(c, "RV$") {
+		if strings.HasPrefix(c, "G$rd_pos") || strings.HasPrefix(c, "G$it_") || strings.HasPrefix(c, "G$put_") || strings.HasPrefix(c, "G$get_") || strings.HasPrefix(c, "G$part_") || strings.HasPrefix(c, "G$lp_") || strings.HasPrefix(c, "G$br_src") || strings.HasPrefix(c, "G$hdr_") || strings.HasPrefix(c, "RV$") {
 			continue // stream cursors, iterators, the ghost call log and iteration bookkeeping are not stored state
 		}
 		t := now.Heap[c]
